@@ -48,7 +48,7 @@ Fixpoint sem_ok (e : expr) : bool :=
   | ECall _ args => forallb (fun a => match a with AExpr x => sem_ok x | ARef x => sem_ok x end) args
   | ENot x => sem_ok x
   | EIndex l i => ook l && in_int64 i
-  | ESlice l a b c r => ook l && opt_int64 a && opt_int64 b && opt_int64 c && rok r
+  | ESlice l a b c r => ook l && opt_int64 a && opt_int64 b && opt_int64 (cjoin c) && rok r
   | EListProj l r => ook l && rok r
   | EFlatten l r => ook l && rok r
   | EFilter l c r => ook l && sem_ok c && rok r
@@ -575,9 +575,9 @@ Proof.
     intros r Hr. inversion Hr; subst. apply plain_index_list. exact P.
   - (* ESlice *)
     change (esize (ESlice l a b c r)) with (S (S (S (osize l + rsize r)))) in Hn.
-    change (sem_ok (ESlice l a b c r)) with (ook l && opt_int64 a && opt_int64 b && opt_int64 c && rok r) in Hok.
+    change (sem_ok (ESlice l a b c r)) with (ook l && opt_int64 a && opt_int64 b && opt_int64 (cjoin c) && rok r) in Hok.
     change (compile (ESlice l a b c r))
-      with (N0 ASTProjection [N0 ASTIndexExpression [lhs_node l; Node ASTSlice (NVSlice a b c) []]; rhs_node r]) in *.
+      with (N0 ASTProjection [N0 ASTIndexExpression [lhs_node l; Node ASTSlice (NVSlice a b (cjoin c)) []]; rhs_node r]) in *.
 
     split_ok Hok. fuel_S fuel f Hf. fuel_S f f2 Hf. fuel_S f2 f3 Hf. intros v Hv.
     change (eval ord (ESlice l a b c r) v)
@@ -585,7 +585,7 @@ Proof.
             match x with
             | VArr xs =>
               if two63 <=? zlen xs then OutOfFuel else
-              match py_slice xs a b c with
+              match py_slice xs a b (cjoin c) with
               | Some ys => ys0 <- mapM (rhs_eval r) ys ;; Ok (VArr (drop_nulls ys0))
               | None => Err EEval
               end
@@ -597,10 +597,10 @@ Proof.
     specialize (P x eq_refl). rewrite ex_slice.
     destruct x as [ | | | | xs | | ]; try (ok_const).
     destruct (two63 <=? zlen xs) eqn:Eh; [split; [reflexivity | discriminate]|].
-    rewrite (slice_go_python xs a b c) by (first [lia | apply opt_int64_spec; assumption]).
-    destruct (py_slice xs a b c) as [ys|] eqn:Ep; cbn [bind]; [|split; [reflexivity | discriminate]].
+    rewrite (slice_go_python xs a b (cjoin c)) by (first [lia | apply opt_int64_spec; assumption]).
+    destruct (py_slice xs a b (cjoin c)) as [ys|] eqn:Ep; cbn [bind]; [|split; [reflexivity | discriminate]].
     assert (Pys : plain (VArr ys) = true).
-    { unfold py_slice in Ep. destruct (py_indices (zlen xs) a b c); inversion Ep. apply plain_pick_idx. exact P. }
+    { unfold py_slice in Ep. destruct (py_indices (zlen xs) a b (cjoin c)); inversion Ep. apply plain_pick_idx. exact P. }
     apply (project_agrees (S (S f3)) (rhs_node r) (rhs_eval r)); [|exact Pys].
     apply IHr; [lia | assumption | lia].
   - (* EListProj *)
